@@ -40,6 +40,15 @@ def run(tier, seed, vh, only_paths=None, mode=None):
             for site in SITES:
                 cases.append({"ops": h, "at": len(h) - 1, "site": site})
         gen += g3
+        # a pending expiration that belongs to a tombstone and to nothing else (GetExpiry does not show it; the timer must still be re-armed)
+        tomb = [h for h in cover if h[0]["op"] in ("WriteTombstoneWithXattrs",) and h[0].get("exp") == "E1"]
+        for h in tomb[:1]:
+            cases.append({"ops": h[:1], "at": 1, "site": "op.acked"})
+            cases.append({"ops": h[:1], "at": 0, "site": "none"})
+        tomb2 = [h for h in cover if len(h) >= 2 and h[0]["op"] == "WriteWithXattrs" and h[1]["op"] == "UpdateXattrDeleteBody" and h[1].get("exp") == "E1"]
+        for h in tomb2[:1]:
+            cases.append({"ops": h[:2], "at": 2, "site": "op.acked"})
+            cases.append({"ops": h[:2], "at": 0, "site": "none"})
         # a pending expiration whose deadline passes while the bucket is closed: killed right after the last
         # acknowledgement, or ended without a crash; re-opened two seconds after the deadline
         for h in hist[: (3 if tier == "quick" else 12)]:
